@@ -712,6 +712,14 @@ func openStore(dir string, options StoreOptions) (*Store, error) {
 			continue
 		}
 
+		// The file the store is opened with is known to the store by
+		// name like the files it starts itself (see startFileLOCKED()
+		// and fileNameOf()).
+		fileRefMap := make(map[string]*FileRef)
+		if mref := footer.anyMmapRef(); mref != nil && mref.fref != nil {
+			fileRefMap[fnames[i]] = mref.fref
+		}
+
 		if !options.KeepFiles && !options.CollectionOptions.ReadOnly {
 			rmFiles := append(fnames[0:i], fnames[i+1:]...)
 			if options.CollectionOptions.Log != nil {
@@ -733,7 +741,7 @@ func openStore(dir string, options StoreOptions) (*Store, error) {
 			footer:       footer,
 			nextFNameSeq: maxFNameSeq + 1,
 			histograms:   histograms,
-			fileRefMap:   make(map[string]*FileRef),
+			fileRefMap:   fileRefMap,
 			abortCh:      make(chan struct{}),
 		}, nil
 	}
